@@ -387,13 +387,13 @@ def check_who_may_write(chk, prog, cfg, rule="R1.1"):
                        "%s value built in %s" % (last(adt), b.path), cfg)
     # privacy of the stores and of the ids
     for adt, fs in ((REG, ["types", "type_table"]), (INT, ["map", "vec"]), (PRB, ["types"]),
-                    ("scale_info::meta_type::MetaType", ["fn_type_info", "type_id"])):
+                    ("scale_info::meta_type::MetaType", None)):
         a = prog.adts.get(adt)
         if a is None:
             chk.anchor_missing(adt)
             continue
         for f in a["variants"][0]["fields"]:
-            if f["name"] in fs:
+            if fs is None or f["name"] in fs:
                 chk.expect(f["vis"] != "pub" and f["vis"] != "crate", rule, "private:%s.%s" % (last(adt), f["name"]), f["loc"], "visibility: %s" % f["vis"], cfg)
     # no &mut-returning public API on the stores
     for f in prog.fn_list:
